@@ -146,11 +146,26 @@ def lean_side(pid, reg, args):
     if not ok:
         # localise: which of the property's modules no longer check?  (the others are still audited)
         res["log"] = log[-4000:]
-        for m in mods:
-            okm, logm = E.lake_build([m])
-            if not okm:
+        known = E.failed_modules_of(log, mods)
+        if known is not None:
+            for m in known:
                 res["failed_modules"].append(m)
-                res["broken"].append(f"module:{m} does not build: " + ", ".join(E.failed_decls(logm) or ["(see log)"]))
+                res["broken"].append(f"module:{m} does not build: " + ", ".join(E.failed_decls(log) or ["(see log)"]))
+            # the modules lake skipped because a sibling failed first still have to be built
+            rest = [m for m in mods if m not in known]
+            if rest:
+                okr, logr = E.lake_build(rest)
+                if not okr:
+                    more = E.failed_modules_of(logr, rest) or rest
+                    for m in more:
+                        res["failed_modules"].append(m)
+                        res["broken"].append(f"module:{m} does not build: " + ", ".join(E.failed_decls(logr) or ["(see log)"]))
+        else:
+            for m in mods:
+                okm, logm = E.lake_build([m])
+                if not okm:
+                    res["failed_modules"].append(m)
+                    res["broken"].append(f"module:{m} does not build: " + ", ".join(E.failed_decls(logm) or ["(see log)"]))
         okd, _ = E.lake_build(["driver"])
         res["driver_ok"] = okd
         if not okd:
